@@ -214,6 +214,27 @@ def run(ctx) -> None:
         if not dom:
             continue
         lp = dom[0].ast
+        # what is extracted is what was vetted: the handle extractall() is called on is the very handle (same name, same reaching
+        # definition) whose getmembers() produced the vetted list - not a second open of the archive path
+        from vlib import flow
+        recv = call.func.value
+        vetted_calls = [c for n in cfg.nodes if n.ast is not None and n.kind in ("stmt", "for", "test") for c in own_calls(n.ast)
+                        if last_attr(c) == "getmembers" and isinstance(c.func.value, ast.Name)]
+        same = False
+        why_h = "the vetted member list does not come from <handle>.getmembers()"
+        if isinstance(recv, ast.Name) and vetted_calls:
+            rd = flow.reaching_defs(cfg, recv.id, ignore_labels=("exc",))
+            at_extract = rd.get(en.id, frozenset())
+            for vc in vetted_calls:
+                vn = [n for n in cfg.nodes if n.ast is not None and n.kind in ("stmt", "for", "test") and any(vc is x for x in own_calls(n.ast))]
+                if vc.func.value.id == recv.id and vn and rd.get(vn[0].id, frozenset()) == at_extract and len(at_extract) == 1:
+                    same = True
+            why_h = "%s is (re)bound between the vetting and the extraction" % recv.id
+        ctx.ob("C18.R1-archive-members", call, same,
+               "the handle that is extracted is the handle whose members were vetted" if same else
+               "what is extracted is not what was vetted (%s): the archive path is opened a second time, a producer that replaces the archive "
+               "(write to a temporary file, rename) between the two opens gets unvetted members such as '../escaped.txt' written outside the "
+               "working directory" % why_h, construct=short(call, 40) + " <- same handle as getmembers()")
         tests = live(cfg, [c for c in containment_tests(sr) if any(c.compare is x for x in ast.walk(lp))])
         name_tests = [c for c in tests if mentions_source(sr, c.call, lambda n: isinstance(n, ast.Attribute) and n.attr in ("name", "path") and isinstance(n.value, ast.Name) and n.value.id == getattr(lp.target, "id", None))]
         if not name_tests:
@@ -298,8 +319,46 @@ def run(ctx) -> None:
     def kind_of_test(t: ast.AST) -> Optional[str]:
         return "sym" if isinstance(t, ast.Call) and last_attr(t) == "issym" else "lnk" if isinstance(t, ast.Call) and last_attr(t) == "islnk" else None
 
+    def strip_realpath(e: ast.AST) -> ast.AST:
+        while isinstance(e, ast.Call) and call_name(e) in ("os.path.realpath", "os.path.abspath", "os.path.normpath") and e.args:
+            e = e.args[0]
+        return e
+
     def is_member_dir(e: ast.AST) -> bool:
+        e = strip_realpath(e)
         return isinstance(e, ast.Call) and call_name(e) == "os.path.dirname"
+
+    def resolves_member_itself(e: ast.AST, depth: int = 0) -> bool:
+        """dirname(<X>) where X is (derived from) realpath(<full member path>): the member's own last component is followed when an
+        entry of that name already exists and is a link - tarfile replaces that entry, it does not create the link where it points"""
+        e = strip_realpath(e)
+        if not (isinstance(e, ast.Call) and call_name(e) == "os.path.dirname" and e.args):
+            return False
+
+        member_vars = {lp_.target.id for lp_ in source.walk_own(sr) if isinstance(lp_, ast.For) and isinstance(lp_.target, ast.Name) and any(
+            isinstance(x, ast.Call) and last_attr(x) in ("issym", "islnk") and isinstance(x.func.value, ast.Name) and x.func.value.id == lp_.target.id
+            for x in ast.walk(lp_))}
+
+        def mentions_member(x: ast.AST, d: int = 0) -> bool:
+            for y in ast.walk(x):
+                if isinstance(y, ast.Name):
+                    if y.id in member_vars:
+                        return True
+                    if d < 4 and any(mentions_member(v, d + 1) for v in local_defs(sr, y.id) if not (isinstance(v, ast.Name) and v.id == y.id)):
+                        return True
+            return False
+
+        def has_realpath(x: ast.AST, d: int) -> bool:
+            # a realpath() applied to something that depends on the member (its full path), reached directly or through locals
+            for c in ast.walk(x):
+                if isinstance(c, ast.Call) and call_name(c) == "os.path.realpath" and c.args and mentions_member(c.args[0]):
+                    return True
+            if d < 4:
+                for nm in [y for y in ast.walk(x) if isinstance(y, ast.Name)]:
+                    if any(has_realpath(v, d + 1) for v in local_defs(sr, nm.id) if not (isinstance(v, ast.Name) and v.id == nm.id)):
+                        return True
+            return False
+        return has_realpath(e.args[0], 0)
 
     def base_for(e: ast.AST, kind: str, depth: int = 0) -> Optional[str]:
         """'dir' (the member's directory) / 'root' (anything else: the extraction root) that e denotes for a link of this kind"""
@@ -308,6 +367,7 @@ def run(ctx) -> None:
             if k is not None:
                 return base_for(e.body if k == kind else e.orelse, kind, depth + 1)
             return None
+        e = strip_realpath(e)
         if isinstance(e, ast.Name) and depth < 4:
             vals = local_defs(sr, e.id)
             got = {base_for(v, kind, depth + 1) for v in vals}
@@ -331,6 +391,25 @@ def run(ctx) -> None:
             want = "dir" if k == "sym" else "root"
             got = base_for(jn.args[0], k)
             ok = got == want
+            if ok and k == "sym":
+                # which expression is the base for a symbolic link
+                def sym_expr(e: ast.AST, depth: int = 0) -> ast.AST:
+                    if isinstance(e, ast.IfExp) and kind_of_test(e.test) is not None:
+                        return sym_expr(e.body if kind_of_test(e.test) == "sym" else e.orelse, depth + 1)
+                    inner = strip_realpath(e)
+                    if isinstance(inner, ast.Name) and depth < 4:
+                        vals = local_defs(sr, inner.id)
+                        if len(vals) == 1:
+                            return sym_expr(vals[0], depth + 1)
+                    return e
+                follows = resolves_member_itself(sym_expr(jn.args[0]))
+                ctx.ob("C18.R7-link-roots-mirror-tarfile", jn, not follows,
+                       "the member's directory is taken from the member's path as written (only its parent directories are resolved)" if not follows else
+                       "the directory of a symbolic-link member is taken from the fully RESOLVED path of the member: when an entry of that name "
+                       "already exists and is a link to somewhere deeper (l -> sub/deep/x from an earlier archive), 'l -> ../../victim.txt' is "
+                       "vetted against <workdir>/sub/deep while tarfile replaces l in <workdir> - the new link points outside, and a regular "
+                       "member 'l' of the same archive is written through it",
+                       construct="join(<base>, linkname) <- base is the directory the member is created in")
             ctx.ob("C18.R7-link-roots-mirror-tarfile", jn, ok,
                    "the target of a %s is resolved against %s, as tarfile does" % ("symbolic link" if k == "sym" else "hard link",
                                                                                   "the member's directory" if want == "dir" else "the extraction root") if ok else
